@@ -325,10 +325,19 @@ impl Cartesian<'_> {
                         let path = self.rrt.plan_rrt(&prev.joints, &next, self.robot, stop);
                         if let Ok(path) = path {
                             println!("  ... closed with RRT {} steps", path.len());
-                            for step in path {
+                            let last = path.len().saturating_sub(1);
+                            for (p, step) in path.into_iter().enumerate() {
+                                // Only the last step is the solution of the target pose. The steps
+                                // leading to it are joint space relocation, they must not be
+                                // annotated as if they were the original (trace, park) pose.
+                                let flags = if p < last {
+                                    to.flags & !(PathFlags::LIN_INTERP | PathFlags::ORIGINAL)
+                                } else {
+                                    to.flags & !PathFlags::LIN_INTERP
+                                };
                                 trace.push(AnnotatedJoints {
                                     joints: step,
-                                    flags: to.flags & !PathFlags::LIN_INTERP,
+                                    flags: flags,
                                 });
                             }
                             success = true;
